@@ -15,6 +15,20 @@ import (
 	"github.com/gopherjs/gopherjs/compiler/typesutil"
 )
 
+// firstValidPos returns the position of n or, for a synthetic node without a
+// position, the first valid position among its descendants.
+func firstValidPos(n ast.Node) token.Pos {
+	pos := n.Pos()
+	ast.Inspect(n, func(c ast.Node) bool {
+		if c == nil || pos.IsValid() {
+			return false
+		}
+		pos = c.Pos()
+		return !pos.IsValid()
+	})
+	return pos
+}
+
 func (fc *funcContext) translateStmtList(stmts []ast.Stmt) {
 	for _, stmt := range stmts {
 		fc.translateStmt(stmt, nil)
@@ -46,7 +60,13 @@ func (fc *funcContext) translateStmt(stmt ast.Stmt, label *types.Label) {
 		panic(bail) // Initiate orderly bailout.
 	}()
 
-	fc.SetPos(stmt.Pos())
+	// Statements synthesized by the simplifier or by this translator (e.g. the
+	// call a send statement is rewritten into) have no position of their own.
+	// They must not wipe out the pending position of the statement they stem
+	// from, otherwise the code they produce is left unmapped.
+	if pos := firstValidPos(stmt); pos.IsValid() {
+		fc.SetPos(pos)
+	}
 
 	stmt = filter.IncDecStmt(stmt, fc.pkgCtx.Info.Info)
 	stmt = filter.Assign(stmt, fc.pkgCtx.Info.Info, fc.pkgCtx.Info.Pkg)
@@ -62,7 +82,7 @@ func (fc *funcContext) translateStmt(stmt ast.Stmt, label *types.Label) {
 			if ifStmt.Init != nil {
 				panic("simplification error")
 			}
-			caseClauses = append(caseClauses, &ast.CaseClause{List: []ast.Expr{ifStmt.Cond}, Body: ifStmt.Body.List})
+			caseClauses = append(caseClauses, &ast.CaseClause{Case: ifStmt.If, List: []ast.Expr{ifStmt.Cond}, Body: ifStmt.Body.List})
 			elseStmt, ok := ifStmt.Else.(*ast.IfStmt)
 			if !ok {
 				break
@@ -597,6 +617,9 @@ func (fc *funcContext) translateBranchingStmt(caseClauses []*ast.CaseClause, def
 		}
 		condStrs[i] = strings.Join(conds, " || ")
 		if flatten {
+			if pos := clause.Pos(); pos.IsValid() {
+				fc.SetPos(pos)
+			}
 			fc.Printf("/* */ if (%s) { $s = %d; continue; }", condStrs[i], caseOffset+i)
 		}
 	}
